@@ -434,7 +434,10 @@ class SSETransport(Transport):
             message_id = message_dict.get("id")
 
             if message_id is not None:
-                # Request - setup for response handling
+                # Request - setup for response handling.  The pending table is keyed by
+                # str(id); messages synthesised for the request carry the id as the
+                # caller wrote it (JSON-RPC ids are typed: 7 is not "7")
+                request_id = message_id
                 message_id = str(message_id)
                 future: asyncio.Future[Dict[str, Any]] = asyncio.Future()
                 async with self._message_lock:
@@ -484,7 +487,7 @@ class SSETransport(Transport):
                             # Send timeout error
                             error_response = {
                                 "jsonrpc": "2.0",
-                                "id": message_id,
+                                "id": request_id,
                                 "error": {"code": -32000, "message": "Request timeout"},
                             }
                             await self._route_incoming_message(error_response)
@@ -516,7 +519,7 @@ class SSETransport(Transport):
                             # document): the request still needs its terminal message
                             error_response = {
                                 "jsonrpc": "2.0",
-                                "id": message_id,
+                                "id": request_id,
                                 "error": {
                                     "code": -32603,
                                     "message": f"HTTP {response.status_code}: {response.text[:100]}",
@@ -529,7 +532,7 @@ class SSETransport(Transport):
                     # Send error response
                     error_response = {
                         "jsonrpc": "2.0",
-                        "id": message_id,
+                        "id": request_id,
                         "error": {"code": -32603, "message": str(e)},
                     }
                     await self._route_incoming_message(error_response)
